@@ -6,6 +6,7 @@ import (
 	"fmt"
 	"os"
 	"path/filepath"
+	"runtime/debug"
 	"sort"
 	"strings"
 )
@@ -110,6 +111,9 @@ func runRule(P *Program, r *Rule) (res *RuleResult) {
 		defer func() {
 			if x := recover(); x != nil {
 				res.Panic = fmt.Sprint(x)
+				if os.Getenv("SSECHECK_PANIC_STACK") != "" {
+					fmt.Fprintf(os.Stderr, "rule %s panicked: %v\n%s\n", r.ID, x, debug.Stack())
+				}
 				c.ob("checker-panic", "-", Undecided, "analysis panicked: "+fmt.Sprint(x)+" (the code has a shape the rule cannot handle)")
 			}
 		}()
